@@ -31,7 +31,8 @@ from urllib.parse import urljoin
 from . import common
 from .common import cN, cbool, clist, cnat, copt, cstr
 
-THEOREMS = []
+THEOREMS = ["load_terminates", "store_before_transport", "cache_complete", "cache_transparent",
+            "failure_atomic", "fetch_once", "fetch_reachable_only_partial", "fetch_reachable_only_refuted"]
 
 PRE = "From SV Require Import Lib.Base C12.Url C12.Model C12.Corr."
 
@@ -1578,7 +1579,18 @@ def run(ck):
                 raise RuntimeError("generator bug: the single-document WSDL does not load: %r (%s)"
                                    % (rs.exc, L.desc))
             single_fp = fp_digest(fingerprint(rs.client))
-            probe = load_client(L.docs, L.in_store, L.root)
+            try:
+                with Watchdog(20):
+                    probe = load_client(L.docs, L.in_store, L.root)
+            except Watchdog.Timeout as e:
+                probe = LoadResult()
+                probe.client, probe.exc, probe.events, probe.runaway = None, e, [], True
+            if probe.runaway or isinstance(probe.exc, (Watchdog.Timeout, RecursionError)):
+                ck.seen((L.desc, idx, "probe"), nontrivial=len(L.docs) > 1)
+                ck.failing_input("C12:load-does-not-terminate",
+                                 "a document graph makes the load run away (%r) [%s]" % (probe.exc, L.desc),
+                                 dict(L.payload(), policy=0))
+                continue
             nfetch = sum(1 for k, _ in probe.events if k == "S")
             for policy in (0, 1):
                 steps = steps_for(ck, nfetch, policy, idx, probe.exc is None)
